@@ -1,2 +1,3 @@
 import PsVerif.Generated.Recon
-
+#print axioms PsVerif.Gen.recon_predict
+#print axioms PsVerif.Gen.recon_predict_is_model
